@@ -7823,7 +7823,9 @@ class SFTPServer:
             newdir = posixpath.dirname(newpath)
             abspath1 = self.map_path(posixpath.join(newdir, oldpath))
 
-            mapped_newdir = self.map_path(newdir)
+            # Judge the target from the directory the link really lands in
+            mapped_newdir = os.path.realpath(
+                posixpath.dirname(self.map_path(newpath)))
             abspath2 = os.path.join(mapped_newdir, oldpath)
 
             # Make sure the symlink doesn't point outside the chroot
